@@ -639,6 +639,28 @@ def _kw_positions(t, kw: str) -> bool:
     return conds[0] == ("cmp", "==", ("call", ("attr", ("bv", m.group(2)), "upper"), (), ()), const(kw))
 
 
+def _kw_values(t, kw: str):
+    """[v for c, v in zip(PARAMS, PARAMS[1:]) if c.upper() == KW]: the arguments that follow a keyword, in order.
+    Returns None when the term is not of this family, else (ok, message)."""
+    PARAMS = ("map", ("text", IT), A)
+    if not (t[0] == "comp" and t[1] == "list" and len(t[3]) == 1):
+        return None
+    var, it, conds = t[3][0]
+    m = re.fullmatch(r"\((\w+), (\w+)\)", var) if isinstance(var, str) else None
+    if not m or not (it[0] == "call" and it[1] == ("global", "zip") and len(it[2]) == 2 and not it[3]) or len(conds) != 1:
+        return None
+    if conds[0] != ("cmp", "==", ("call", ("attr", ("bv", m.group(1)), "upper"), (), ()), const(kw)):
+        return None
+    first, second = it[2]
+    shifted = ("map", ("text", IT), ("slice", A, const(1), NONE))
+    if t[2] != ("bv", m.group(2)):
+        return False, f"the collected value is not the argument paired with the {kw} keyword"
+    if first == PARAMS and second == shifted:
+        return True, ""
+    return False, (f"the {kw} keyword and its value are paired as zip({pretty(first)[:40]}, {pretty(second)[:40]}): the value is not "
+                   f"the argument directly following the keyword")
+
+
 def _kw_position(t, kw: str) -> bool:
     """positions[-1] / positions[0]: which of several NAME keywords wins is not fixed by the property."""
     return t[0] == "index" and t[2] in (const(-1), const(0)) and _kw_positions(t[1], kw)
@@ -648,6 +670,11 @@ def _declarative_name(nf, r: Row, name_t, kw: str = "NAME"):
     """name = params[K + 1] with K a keyword position computed by comprehension (no scan loop); '' when there is none.
     Returns None when the term is not of this family, else (ok, message, K)."""
     t = nf.nf(name_t)
+    if t[0] == "index" and t[2] in (const(-1), const(0)):
+        kv = _kw_values(t[1], kw)
+        if kv is not None:
+            # name = values_after_keyword[-1]: K stays symbolic (only add_test needs the position, for its signature)
+            return kv[0], kv[1], ("kwvalue",)
     if t[0] == "text" and t[1][0] == "index" and t[1][1] == A:
         i = t[1][2]
         if i[0] == "concat" and i[2] == const(1) and _kw_position(i[1], kw):
@@ -657,7 +684,7 @@ def _declarative_name(nf, r: Row, name_t, kw: str = "NAME"):
         return None
     if t == const(""):
         for a, v in r.outcome.conds:
-            if a[0] == "nonempty" and _kw_positions(nf.nf(a[1]), kw):
+            if a[0] == "nonempty" and (_kw_positions(nf.nf(a[1]), kw) or (_kw_values(nf.nf(a[1]), kw) or (False,))[0]):
                 return (True, "", None) if not v else (False, f"the name stays '' although a {kw} keyword is present", None)
     return None
 
